@@ -327,9 +327,62 @@ func hasBig(v any) bool {
 	return false
 }
 
+// chanRoute delivers the documents through a channel. late: the channel is large and is drained only after
+// the call has returned (what was delivered must still be what was parsed); otherwise a goroutine drains it
+// while the parser runs.
+func chanRoute(name string, reader bool, late bool, call func(x []byte, pl jsongen.Plan, ch chan any) error) route {
+	return route{name, reader, func(x []byte, pl jsongen.Plan) outcome {
+		return guard(func() outcome {
+			var o outcome
+			if late && len(x) < 8000 { // at most len(x)/2 documents: the channel can take them all
+				ch := make(chan any, 4096)
+				o.err = call(x, pl, ch)
+				close(ch)
+				for v := range ch {
+					o.docs = append(o.docs, v)
+				}
+				return o
+			}
+			ch := make(chan any, 4)
+			done := make(chan struct{})
+			go func() {
+				for v := range ch {
+					o.docs = append(o.docs, v)
+				}
+				close(done)
+			}()
+			err := call(x, pl, ch)
+			close(ch)
+			<-done
+			o.err = err
+			return o
+		})
+	}}
+}
+
 func multiRoutes(family string) []route {
 	if family == "sen" {
 		return []route{
+			chanRoute("sen.Parser.Parse(chan)", false, false, func(x []byte, _ jsongen.Plan, ch chan any) error {
+				var p sen.Parser
+				_, err := p.Parse(x, ch)
+				return err
+			}),
+			chanRoute("sen.Parser.ParseReader(chan)", true, false, func(x []byte, pl jsongen.Plan, ch chan any) error {
+				var p sen.Parser
+				_, err := p.ParseReader(pl.Reader(x), ch)
+				return err
+			}),
+			chanRoute("sen.Parser{Reuse}.Parse(chan read afterwards)", false, true, func(x []byte, _ jsongen.Plan, ch chan any) error {
+				p := sen.Parser{Reuse: true}
+				_, err := p.Parse(x, ch)
+				return err
+			}),
+			chanRoute("sen.Parser{Reuse}.ParseReader(chan read afterwards)", true, true, func(x []byte, pl jsongen.Plan, ch chan any) error {
+				p := sen.Parser{Reuse: true}
+				_, err := p.ParseReader(pl.Reader(x), ch)
+				return err
+			}),
 			{"sen.Parser.Parse(cb bool)", false, func(x []byte, _ jsongen.Plan) outcome {
 				return guard(func() outcome {
 					var o outcome
@@ -365,6 +418,16 @@ func multiRoutes(family string) []route {
 		}
 	}
 	return []route{
+		chanRoute("oj.Parser{Reuse}.Parse(chan read afterwards)", false, true, func(x []byte, _ jsongen.Plan, ch chan any) error {
+			p := oj.Parser{Reuse: true}
+			_, err := p.Parse(x, ch)
+			return err
+		}),
+		chanRoute("oj.Parser{Reuse}.ParseReader(chan read afterwards)", true, true, func(x []byte, pl jsongen.Plan, ch chan any) error {
+			p := oj.Parser{Reuse: true}
+			_, err := p.ParseReader(pl.Reader(x), ch)
+			return err
+		}),
 		{"oj.Parser.Parse(cb bool)", false, func(x []byte, _ jsongen.Plan) outcome {
 			return guard(func() outcome {
 				var o outcome
